@@ -117,6 +117,24 @@ def worker(job):
                                   "clause": "every emitted URL is served with that component's code and content type",
                                   "expected": [200, *want] if want else "a URL of the rendered component", "observed": list(got)})
     if do_paths:
+        # two DISTINCT classes with the same module and qualified name (a class factory called twice): known finding F-C19a
+        def factory(js_):
+            class UrlTwin(Component):
+                template = "<div>t</div>"
+                js = js_
+            return UrlTwin
+        from django_components import Component
+        get_component_media_cache().clear()
+        t1, t2 = factory("console.log('first')"), factory("console.log('second')")
+        t1.render(type="fragment")
+        for url in _emitted_urls(t2.render(type="fragment")):
+            n += 1
+            r = client.get(url)
+            if r.content.decode() != "console.log('second')":
+                fails.append({"input": {"history": "class factory called twice (same module and qualified name, different js); fragment render of the first class, then of the second", "GET": url},
+                              "clause": "every emitted URL is served with that component's code - never another component's",
+                              "expected": [200, "text/javascript", "console.log('second')"], "observed": [r.status_code, r.get("Content-Type", ""), r.content.decode()],
+                              "known_finding": "F-C19a"})
         get_component_media_cache().clear()
         for name in classes:
             classes[name].render(type="fragment")
@@ -164,8 +182,12 @@ def run(repo, maxlen=3, procs=8):
     ctx = mp.get_context("spawn")
     with ctx.Pool(procs) as pool:
         res = pool.map(worker, [(repo, seqs[k::procs], k == 0) for k in range(procs)])
-    return {"space": f"all {len(seqs)} histories of <= {maxlen} steps over 6 generated component classes x document / fragment render + media-cache clear (length {maxlen}: last render of a class with both kinds), every emitted URL fetched; plus every request path over 8 class hashes x 14 kinds (incl. a kind with a cached input hash glued on) x 4 input hashes x 4 methods",
-            "evaluations": sum(r["n"] for r in res), "failures": [f for r in res for f in r["fails"]][:8], "exhaustive": True}
+    allf = [f for r in res for f in r["fails"]]
+    unexpected = [f for f in allf if not f.get("known_finding")]
+    known = [f for f in allf if f.get("known_finding")]
+    return {"unexpected_failures": len(unexpected), "known_finding_failures": len(known), "failures": unexpected[:8] + known[:1],
+            "space": f"all {len(seqs)} histories of <= {maxlen} steps over 6 generated component classes x document / fragment render + media-cache clear (length {maxlen}: last render of a class with both kinds), every emitted URL fetched; plus every request path over 8 class hashes x 10 kinds (incl. a kind with a cached input hash glued on) x 3 input hashes x 4 methods; plus one scenario with two distinct classes of the same qualified name (known finding F-C19a)",
+            "evaluations": sum(r["n"] for r in res), "exhaustive": True}
 
 
 if __name__ == "__main__":
